@@ -17,7 +17,11 @@
               if packet.PaddingSize != 0 && packet.Header.PaddingSize == 0 {
                 packet.Header.PaddingSize = packet.PaddingSize }
               if _, err := b.writeStream.WriteRTP(&packet.Header, packet.Payload); err != nil { collect } }
-            return FlattenErrs(collected) *)
+            return FlattenErrs(collected)
+   Write(b): packet := pool.Get(); if err = packet.Unmarshal(b); err != nil { return 0, err }
+            return len(b), s.writeRTP(packet)
+   rtp.Packet.Unmarshal is outside the repo: the model takes it as a parameter
+   [unm] (Section variable); theorems state what they need of it as premises. *)
 From Coq Require Import String NArith ZArith Bool List.
 Import ListNotations.
 From Verif Require Import Common.V Common.Base.
@@ -47,7 +51,8 @@ Inductive op :=
 | Bind (id : nat) (ssrc : N) (codec : option N) (w : nat) (fail : bool)
       (* codec = result of the codec search on the context: Some pt / None *)
 | Unbind (id : nat)
-| Write (p : pkt).
+| Write (p : pkt)
+| WriteRaw (raw : list N).     (* Write(b []byte) *)
 
 (* what one writer sees in one WriteRTP call *)
 Record delivery := mkD { d_w : nat; d_pkt : pkt }.
@@ -84,7 +89,11 @@ Fixpoint write_loop (bs : list binding) (loc : pkt) : list delivery * N :=
 Inductive obs :=
 | OBind (r : result N)                 (* payload type returned by Bind *)
 | OUnbind (r : result unit)
-| OWrite (errs : N) (ds : list delivery) (caller_after : pkt).
+| OWrite (errs : N) (ds : list delivery) (caller_after : pkt)
+| OWriteRaw (r : result (N * list delivery)).   (* unmarshal error, or error count and deliveries *)
+
+Section WithUnmarshal.
+Variable unm : list N -> option pkt.    (* rtp.Packet.Unmarshal into a fresh pool packet; None = error *)
 
 Definition step (s : list binding) (o : op) : result (list binding * obs) :=
   match o with
@@ -103,6 +112,11 @@ Definition step (s : list binding) (o : op) : result (list binding * obs) :=
       let loc := p in                       (* *packet = *p *)
       let (ds, errs) := write_loop s loc in
       Ok (s, OWrite errs ds p)              (* the caller keeps p *)
+  | WriteRaw raw =>
+      match unm raw with
+      | Some loc => let (ds, errs) := write_loop s loc in Ok (s, OWriteRaw (Ok (errs, ds)))
+      | None => Ok (s, OWriteRaw (Err "unmarshal"))  (* return 0, err: no writer is called *)
+      end
   end.
 
 Fixpoint run (s : list binding) (ops : list op) : result (list binding * list obs) :=
@@ -121,6 +135,8 @@ Fixpoint run (s : list binding) (ops : list op) : result (list binding * list ob
       end
   end.
 
+End WithUnmarshal.
+
 (* ---------------------------------------------------------------- spec *)
 (* the set of bound senders as an unordered collection keyed by context id *)
 
@@ -130,6 +146,7 @@ Definition spec_step (s : list binding) (o : op) : list binding :=
   | Bind _ _ None _ _ => s
   | Unbind id => filter (fun b => negb (Nat.eqb (b_id b) id)) s
   | Write _ => s
+  | WriteRaw _ => s
   end.
 
 Definition spec_run (ops : list op) : list binding := fold_left spec_step ops [].
